@@ -893,14 +893,42 @@ def m_format(I, ctx, callee, args, crate):
 def m_fmt_args(I, ctx, callee, args, crate):
     pieces = I.deref(ctx, args[0])
     fargs = I.deref(ctx, args[1]) if len(args) > 1 else VecV([])
-    ps = [I.deref(ctx, p) for p in pieces.items] if isinstance(pieces, VecV) else [pieces]
     fa = [I.deref(ctx, x) for x in fargs.items] if isinstance(fargs, VecV) else []
+    if isinstance(pieces, VecV) and pieces.items and all(isinstance(b, int) and not isinstance(b, bool) for b in pieces.items):
+        return FmtStr(_decode_template(bytes(pieces.items), fa))
+    if isinstance(pieces, str): return FmtStr([pieces])
+    ps = [I.deref(ctx, p) for p in pieces.items] if isinstance(pieces, VecV) else [pieces]
     parts = []
     for i, p in enumerate(ps):
         parts.append(p)
         if i < len(fa): parts.append(fa[i])
     for x in fa[len(ps):]: parts.append(x)
     return FmtStr(parts)
+
+
+def _decode_template(t, fa):
+    """rustc >= 1.9x `fmt::Arguments` byte template: length-prefixed literal pieces, 0b11xxxxxx placeholders, 0 = end"""
+    parts, i, nxt = [], 0, 0
+    while i < len(t):
+        n = t[i]; i += 1
+        if n == 0: break
+        if n < 0x80:
+            parts.append(t[i:i + n].decode()); i += n
+        elif n == 0x80:
+            ln = int.from_bytes(t[i:i + 2], "little"); i += 2
+            parts.append(t[i:i + ln].decode()); i += ln
+        elif n & 0xC0 == 0xC0:
+            if n & 0x01: i += 4
+            if n & 0x02: i += 2
+            if n & 0x04: i += 2
+            idx = nxt
+            if n & 0x08:
+                idx = int.from_bytes(t[i:i + 2], "little"); i += 2
+            nxt = idx + 1
+            parts.append(fa[idx] if idx < len(fa) else "?")
+        else:
+            raise Unsupported(f"format template byte {n:#x}")
+    return parts
 
 
 @M.on(r"^core::fmt::rt::Argument::(new_display|new_debug|new_lower_hex|new_upper_hex)$|Argument::<'_>::new_(display|debug)$")
